@@ -20,7 +20,8 @@ Universal(o) ==
 Violations(line) ==
   IF Mode = "bytes" THEN Universal(line.obs)
   ELSE LET e == Expected(line.in)  o == line.obs IN
-       Universal(o) \cup (IF ~o.panic /\ (o.ok # e.ok \/ o.outcome # e.outcome \/ (o.outcome = "present" /\ o.outErr # e.outErr)) THEN {"unexpected-result"} ELSE {})
+       Universal(o) \cup (IF BadConstruct(line.in) /\ o.constructed THEN {"invalid-document-accepted-at-construction"} ELSE {})
+                    \cup (IF ~o.panic /\ (o.ok # e.ok \/ o.outcome # e.outcome \/ (o.outcome = "present" /\ o.outErr # e.outErr)) THEN {"unexpected-result"} ELSE {})
 
 Why(line) == IF Mode = "bytes" THEN line.in.target ELSE line.in.entry \o "/" \o line.in.construct \o "/" \o line.in.level
 Init == l = 1
